@@ -443,3 +443,70 @@ Definition trim (s : string) : string :=
   rev_string (trim_left (rev_string (trim_left s) "")) "".
 
 Definition go_hdr_wire (s : string) : string := trim (nl_to_space s).
+
+(* ---- how a row's headers and body come about (expr/http_error.go Finalize,
+        expr/http_body_types.go buildHTTPResponseBody, expr/http_response.go mapUnmappedAttrs):
+        the design gives the error type, the explicit Header(attr:name) mappings and an
+        optional Body override; goa computes the body (attributes not sent in headers) and,
+        for the built-in ErrorResult type only, carries the attributes an overridden body
+        leaves out in goa-attribute-<name> headers ---- *)
+
+Record etype := mketype { t_default : bool;                   (* the built-in ErrorResult *)
+                          t_object : bool;
+                          t_attrs : list (string * bool) }.   (* attribute, required; [("", true)] for a non-object *)
+
+Inductive bodydsl := DDefault | DEmpty | DAttr (a : string).  (* no Body | Body(Empty) | Body("a") *)
+
+Record rawmap := mkraw { r_hdrs : list (string * string);      (* attribute, canonical header name *)
+                         r_body : bodydsl }.
+
+Definition error_result : etype :=
+  mketype true true [("name", true); ("id", true); ("message", true);
+                     ("temporary", true); ("timeout", true); ("fault", true)].
+
+Definition upper (c : ascii) : ascii :=
+  let n := nat_of_ascii c in
+  if andb (Nat.leb 97 n) (Nat.leb n 122) then ascii_of_nat (n - 32) else c.
+
+(* http.CanonicalHeaderKey("goa-attribute-" + name) for a lower-case attribute name *)
+Definition goa_attribute_header (n : string) : string :=
+  "Goa-Attribute-" ++ match n with EmptyString => EmptyString | String c r => String (upper c) r end.
+
+Definition attr_required (ty : etype) (n : string) : bool :=
+  match alookup n (t_attrs ty) with Some b => b | None => false end.
+
+Definition explicit_hdrs (ty : etype) (raw : rawmap) : list hmap :=
+  map (fun ah => mkh (fst ah) (snd ah) (attr_required ty (fst ah))) (r_hdrs raw).
+
+(* mapUnmappedAttrs *)
+Definition unmapped_hdrs (ty : etype) (raw : rawmap) : list hmap :=
+  if t_default ty then
+    let others := fun skip =>
+      flat_map (fun nr => if mem (fst nr) (map fst (r_hdrs raw)) || skip (fst nr) then []
+                          else [mkh (fst nr) (goa_attribute_header (fst nr)) (snd nr)]) (t_attrs ty) in
+    match r_body raw with
+    | DDefault => []
+    | DEmpty => others (fun _ => false)
+    | DAttr a => others (String.eqb a)
+    end
+  else [].
+
+Definition finalize_hdrs (ty : etype) (raw : rawmap) : list hmap :=
+  (explicit_hdrs ty raw ++ unmapped_hdrs ty raw)%list.
+
+(* buildHTTPResponseBody *)
+Definition finalize_body (ty : etype) (raw : rawmap) : bodyspec :=
+  match r_body raw with
+  | DEmpty => BEmpty
+  | DAttr a => BAttr a
+  | DDefault =>
+    if t_object ty then
+      match filter (fun n => negb (mem n (map fst (r_hdrs raw)))) (map fst (t_attrs ty)) with
+      | [] => BEmpty
+      | rest => BObject rest
+      end
+    else match r_hdrs raw with [] => BValue | _ => BEmpty end
+  end.
+
+Definition finalize_row (n : string) (st : nat) (k : ekind) (ty : etype) (raw : rawmap) : edecl :=
+  mkdecl n st k (finalize_hdrs ty raw) (finalize_body ty raw).
